@@ -1324,7 +1324,56 @@ def _bigcoef_body(ctx, pool):
 # ----------------------------------------------------------------------------- class: history
 _PRIMERS = ["hash", "set", "dict", "eq-fresh", "eq-other", "simplify", "repr", "props", "circuit", "arith", "hash-sum", "copy"]
 _DERIVE = ["a*k", "k*a", "a/k", "a+a", "a-b", "k*a-a", "a+b", "b+a", "a*b", "a**2", "a**3", "a+k", "k-a", "a*1",
-           "(a*k)/k", "a-a", "simplify", "copy", "-a"]
+           "(a*k)/k", "a-a", "simplify", "copy", "-a",
+           "aug:h=a+b;h+=a", "aug:h=a+b;h-=b", "aug:h=a+b;h*=k", "aug:h=simplify(a);h+=b", "aug:h=sum-of-a's-terms;h+=a",
+           "aug:h=a+b;h+=a;h+=b"]
+
+
+def _augmented(ctx, how, a, b, k):
+    """an accumulator h that is a result of its own (a sum, a simplified copy, a sum over the same term objects) and
+    is then updated with an augmented assignment: h has to denote the accumulated matrix (judged here from the term
+    lists read beforehand - a newly defined in-place operator has no monitor), and the operands a, b that went into
+    it, whose term objects h may share, still denote what they did (the operand-unchanged check at the end)"""
+    T, S = _lib()
+    ta, tb = D.term_list(a), D.term_list(b)
+    if ta is None or tb is None:
+        return None
+    if how == "aug:h=a+b;h+=a":
+        h = a + b
+        h += a
+        want = [(ta, 2), (tb, 1)]
+    elif how == "aug:h=a+b;h-=b":
+        h = a + b
+        h -= b
+        want = [(ta, 1)]
+    elif how == "aug:h=a+b;h*=k":
+        h = a + b
+        h *= k
+        want = [(ta, k), (tb, k)]
+    elif how == "aug:h=simplify(a);h+=b":
+        h = a.simplify() if isinstance(a, S) else S([a]).simplify()
+        h += b
+        want = [(ta, 1), (tb, 1)]
+    elif how == "aug:h=sum-of-a's-terms;h+=a":
+        h = S(list(a.terms))
+        h += a
+        want = [(ta, 2)]
+    else:
+        h = a + b
+        h += a
+        h += b
+        want = [(ta, 2), (tb, 2)]
+    exp = [(ops, complex(c) * w) for tl, w in want for ops, c in tl]
+    th = D.term_list(h)
+    qmap, n = D.compress(exp, th or [])
+    if th is None or n > MAXN:
+        return h
+    diff = _maxabs(D.dense(th, n, qmap) - D.dense(exp, n, qmap))
+    scale = max([1.0] + [abs(c) for _, c in exp])
+    ctx.check("augmented-assignment", diff <= 1e-8 * (len(exp) + 1) * scale,
+              lambda: f"{how} with a = {ta!r}, b = {tb!r}, k = {k!r}: the accumulator reads {th!r}, "
+                      f"its matrix is off by {diff!r}")
+    return h
 
 
 def _fresh(rng, obj, tl=None):
@@ -1495,9 +1544,10 @@ def _history_case(ctx, regime, pool):
         a, b = live[i % len(live)], live[j % len(live)]
         if twin_of is not None and (a is twin_of or b is twin_of):
             # the same derivation on the near-identical twin first (judged by the monitors)
-            _derive(rng, how, objs[-1] if a is twin_of else a, objs[-1] if b is twin_of else b, k)
-        res = _derive(rng, how, a, b, k)
-        tl = D.term_list(res)
+            (_augmented if how.startswith("aug:") else _derive)(
+                *((ctx,) if how.startswith("aug:") else (rng,)), how, objs[-1] if a is twin_of else a, objs[-1] if b is twin_of else b, k)
+        res = _augmented(ctx, how, a, b, k) if how.startswith("aug:") else _derive(rng, how, a, b, k)
+        tl = D.term_list(res) if res is not None else None
         if tl is None:
             continue
         # the result against an operator that was never part of this history (the == monitor decides by matrices)
